@@ -172,19 +172,28 @@ func (l *Link) Transceive(cla, ins, p1, p2 int, data []byte, le int, encodedData
 			resp = nil
 			l.fire(f.Kind)
 		case "resp_truncate":
-			if len(resp) > 0 {
-				n := f.A % len(resp)
+			// A >= 0: keep A bytes; A < 0: drop -A bytes from the end
+			n := f.A
+			if n < 0 {
+				n = len(resp) + n
+			}
+			if n >= 0 && n < len(resp) {
 				resp = bytes.Clone(resp[:n])
 				l.fire(f.Kind)
 			}
 		case "resp_garble":
-			if len(resp) > 0 {
+			// A >= 0: position from the start; A < 0: from the end
+			pos := f.A
+			if pos < 0 {
+				pos = len(resp) + pos
+			}
+			if pos >= 0 && pos < len(resp) {
 				resp = bytes.Clone(resp)
 				m := byte(f.B)
 				if m == 0 {
 					m = 1
 				}
-				resp[((f.A%len(resp))+len(resp))%len(resp)] ^= m
+				resp[pos] ^= m
 				l.fire(f.Kind)
 			}
 		case "resp_oversize":
@@ -206,8 +215,12 @@ func (l *Link) Transceive(cla, ins, p1, p2 int, data []byte, le int, encodedData
 			resp = []byte{byte(f.A >> 8), byte(f.A)}
 			l.fire(f.Kind)
 		case "resp_replay":
-			if len(l.history) > 0 {
-				j := ((f.A % len(l.history)) + len(l.history)) % len(l.history)
+			// A >= 0: response of exchange A; A < 0: -A exchanges ago
+			j := f.A
+			if j < 0 {
+				j = len(l.history) + j
+			}
+			if j >= 0 && j < len(l.history) {
 				resp = bytes.Clone(l.history[j])
 				l.fire(f.Kind)
 			}
